@@ -29,6 +29,8 @@ var regressionHistories = [][]string{
 	{"v41", "reg 0 1", "send 0 0 0 1 0 owc 0 0", "dup 0", "send 1 0 0 2 1 owc 0 0", "dup 1", "dup 0", "send 2 0 0 4 1 empty", "fdup 1 3 0", "fdup 1 4 1", "fdup 1 5 2"},
 	{"v41", "reg 0 1", "send 0 0 0 1 1 many 11", "send 1 0 0 2 1 many 12", "dup 0", "send 2 0 0 2 1 bad 0", "fdup 2 3 1", "dup 2"},
 	{"v41", "reg 0 1", "send 8 0 2 1 0 write 2 -1 25 4 park=write:2", "fdup 8 14 1", "fdup 8 15 0", "dup 8", "rel 8", "dup 14", "dup 8"},
+	{"v40", "open 0 0 0 1 0 2 0", "dup 0", "confirm 1 0 2", "dup 1", "dup 0", "close 2 1 3", "dup 2", "open 3 0 0 4 1 2 0", "dup 2", "close 4 0 3"},
+	{"v40", "open 0 0 0 5 0 2 0 park", "dup 0", "dup 0", "rel 0", "confirm 1 0 6", "oprev 2 0 0 7 0 2 park", "dup 2", "rel 2", "lock 3 2 8 1 0 5 0", "dup 3", "lockx 4 3 2 10 5 0", "dup 4", "locku 5 4 3 0 5", "dup 5", "dup 4"},
 	{"v41", "reg 0 1", "cs 0 0", "cs 0 2", "reg 0 2", "cs 0 0", "send 0 0 0 1 1 empty", "send 1 1 0 1 1 empty", "reg 1 1", "send 2 2 0 1 1 dsess 2", "dup 2"},
 }
 
@@ -91,6 +93,7 @@ func (g *gen41) body(r *run41, allowPark bool) (string, string) {
 		park = fmt.Sprintf("open:%d", f)
 	case 1:
 		body = fmt.Sprintf("openn %d %d %d %d", f, rnd.Intn(numOwners), rnd.Intn(3), rnd.Intn(4))
+		park = fmt.Sprintf("openchild:%d", f)
 	case 2:
 		x := pick(g.opens)
 		if x >= 0 {
